@@ -265,7 +265,7 @@ def sample_paths(edges: dict, init: str, n: int, rng: random.Random) -> list[lis
 def project(raw, refs: list[str], msg_of: dict[int, int]) -> dict:
     st = {}
     sid = {}
-    for r in raw.execute("SELECT id, ref_id, status, version, context FROM stage_executions"):
+    for r in raw.execute("SELECT id, ref_id, status, version, context FROM stage_executions WHERE execution_id LIKE 'W-%'"):
         sid[r["id"]] = r["ref_id"]
         if r["ref_id"] in refs:
             ctx = json.loads(r["context"] or "{}")
